@@ -240,7 +240,9 @@ func (target *TargetGeopackage) writeFeatures(features []processing.Feature) {
 		}
 
 		data := f.Columns()
-		data = append(data, sb)
+		// the columns are shared between the features for the different tile matrices (and their targets),
+		// so do not append the geometry into spare capacity of that slice
+		data = append(data[:len(data):len(data)], sb)
 
 		_, err = stmt.Exec(data...)
 		if err != nil {
